@@ -288,6 +288,12 @@ def run_scenario(scn, workdir, scheme='structural', name_tables=False, plan=None
     extended output or None), traces, dir."""
     d = pathlib.Path(tempfile.mkdtemp(prefix='run_', dir=workdir))
     conf = materialise(scn, d, scheme, name_tables)
+    extra = None
+    if damage and '+' in damage:
+        extra, damage = damage.split('+', 1)          # e.g. 'no_tmp_dir+missing_out_dir' (X15)
+    if extra == 'no_tmp_dir':
+        conf['tmp_dir'] = None
+        conf['extended_result_dir'] = str(d / 'out')
     if damage == 'missing_out_dir':
         # the result file is asked for in a directory that does not exist: the run must stop - and tidy up
         conf['extended_result_path'] = str(d / 'out' / 'run_08' / 'res.json')
